@@ -164,6 +164,34 @@ fn show_simple(sel: &Selector) -> String {
     }
 }
 
+/// the members of every complex target: as iteration hands them out (each annotation selector with offset marked
+/// with whether it covers its annotation's whole text), and as they are stored; one `rg` line for the Lean model of
+/// the folding loop each
+pub fn ranged_lines(store: &AnnotationStore) -> Vec<(String, String, bool)> {
+    let mut out = vec![];
+    for a in store.annotations() {
+        let subs: &Vec<Selector> = match a.as_ref().target() { Selector::MultiSelector(v) | Selector::CompositeSelector(v) | Selector::DirectionalSelector(v) => v, _ => continue };
+        let stored: Vec<String> = subs.iter().map(|s| match s {
+            Selector::RangedTextSelector { resource, begin, end } => format!("RT{}.{}.{}", resource.as_usize(), begin.as_usize(), end.as_usize()),
+            Selector::RangedAnnotationSelector { begin, end, with_text } => format!("RA{}.{}.{}", begin.as_usize(), end.as_usize(), if *with_text { 1 } else { 0 }),
+            other => show_simple(other),
+        }).collect();
+        let handed: Vec<Selector> = a.as_ref().target().iter(store, false).map(|s| s.as_ref().clone()).filter(|s| !s.is_complex() && !matches!(s, Selector::RangedTextSelector { .. } | Selector::RangedAnnotationSelector { .. })).collect();
+        let members: Vec<String> = handed.iter().map(|s| match s {
+            Selector::AnnotationSelector(x, Some((r, t, _))) => {
+                // does (r, t) cover the whole text of annotation x?
+                let whole = store.annotation(*x).map(|ax| { let ts: Vec<_> = ax.textselections().collect(); ts.len() == 1 && ts[0].resource().handle() == *r && ts[0].handle() == Some(*t) }).unwrap_or(false);
+                format!("{}.{}", show_simple(s), if whole { 1 } else { 0 })
+            }
+            other => show_simple(other),
+        }).collect();
+        if members.is_empty() { continue; }
+        let shown: Vec<String> = handed.iter().map(show_simple).collect();
+        out.push((format!("rg {}", members.join(" ")), format!("{} | {}", stored.join(";"), shown.join(";")), stored.iter().any(|x| x.starts_with("RT") || x.starts_with("RA"))));
+    }
+    out
+}
+
 /// canonical rendering of a target with internal ranged selectors expanded
 pub fn show_target(store: &AnnotationStore, sel: &Selector) -> String {
     let kind = match sel {
@@ -1279,6 +1307,12 @@ fn run_script_opt(rep: &mut Report, script: &[String], property: Option<&str>, w
         lines.push("st obs".into());
     }
     if with_model { rep.model_case(lines, outs.clone(), "store"); }
+    // how the members of complex targets are stored, against the Lean model of the folding loop
+    if want("C01") || want("C05") {
+        if let Ok(rl) = guarded(std::panic::AssertUnwindSafe(|| ranged_lines(&ex.store))) {
+            for (line, out, folded) in rl { rep.count(if folded { "ranged:stored-with-a-range" } else { "ranged:stored-plain" }); rep.model_case_ctx(script.to_vec(), vec![line], vec![out], "ranged"); }
+        }
+    }
     outs
 }
 
